@@ -11,7 +11,8 @@ class C11(Prop):
     sizes = {'quick': 1500, 'thorough': 25000}
     shard = 150
     rule = ('random programs (depth <= 4) over await / seq / timeout_after|at / ignore_after|at blocks in context-manager '
-            'and coroutine form / try-except of TaskTimeout, UncaughtTimeoutError, KeyError / raise; relative and absolute '
+            'and coroutine form / try-except of TaskTimeout, UncaughtTimeoutError, KeyError / raise (incl. 6% programs whose body ends '
+            'before every deadline with a TaskTimeout / TimeoutCancellationError / UncaughtTimeoutError from elsewhere); relative and absolute '
             'deadlines incl. zero and past; 30% with an external cancel; compiled to real coroutines over aiorpcx.curio on '
             'a virtual-time event loop; compared: final outcome, per-block (exception leaving, expired) in exit order, end '
             'time, whether a follow-on sleep ran undisturbed; runs in which two timers are due at the same instant are '
@@ -26,6 +27,9 @@ class C11(Prop):
                 {'prog': ['block', 'timeout', False, 8, ['block', 'ignore', False, 16, ['await', 30], 'cm'], 'cm'], 'ext': None},
                 {'prog': ['block', 'timeout', False, 16, ['block', 'timeout', False, 8, ['await', 30], 'coro'], 'cm'], 'ext': None},
                 {'prog': ['seq', ['block', 'ignore', True, -2, ['await', 6], 'cm'], ['await', 4]], 'ext': None}] + [
+            # a block that finishes before its deadline is unaffected - also when what ends it looks like a timeout
+            {'prog': ['block', k, False, 16, ['seq', ['await', 2], ['raise', e]], f], 'ext': None}
+            for k in ('timeout', 'ignore') for f in ('cm', 'coro') for e in ('TaskTimeout', 'TimeoutCancellationError', 'UncaughtTimeoutError')] + [
             # depth 3, the outermost deadline earlier than the middle one; the innermost block is left (normally, by its
             # own timeout that is caught, by an ignored timeout) while the body goes on inside the middle block: the timer
             # must then be armed for the EARLIEST enclosing deadline
@@ -37,7 +41,7 @@ class C11(Prop):
 
     def generate(self, rng, n, tier):
         for _ in range(n):
-            p = tc.gen_prog(rng, 4, {})
+            p = tc.gen_foreign(rng) if rng.random() < 0.06 else tc.gen_prog(rng, 4, {})
             ext = 2 * rng.randrange(0, 40) + 1 if rng.random() < 0.3 else None
             yield {'prog': p, 'ext': ext}
 
@@ -74,7 +78,7 @@ class C11(Prop):
         # UncaughtTimeoutError is reserved for an inner timeout nobody handled: it can only leave a block at the very
         # instant at which a block inside it let a TaskTimeout (or that error) out
         for i, (exc, expired, t0, dl, t1, kind) in enumerate(obs['log']):
-            if exc == 'UncaughtTimeoutError' and not any(
+            if exc == 'UncaughtTimeoutError' and not tc.raises_foreign(case['prog'], ('UncaughtTimeoutError',)) and not any(
                     e2 in ('TaskTimeout', 'UncaughtTimeoutError') and abs(t1b - t1) < 1e-9
                     for e2, _, _, _, t1b, _ in obs['log'][:i]):
                 return ('UncaughtTimeoutError left a block although no block inside it let a timeout out at that instant '
@@ -92,7 +96,7 @@ class C11(Prop):
 
 
 def _raises_tt(p):
-    return False
+    return tc.raises_foreign(p)
 
 
 PROP = C11()
